@@ -3606,7 +3606,29 @@ class ISLaEmitter(IslaLanguageListener.IslaLanguageListener):
         return result
 
     def enterStart(self, ctx: IslaLanguageParser.StartContext):
-        self.used_variables = used_variables_in_concrete_syntax(ctx)
+        # Names invented for free nonterminals (<start>, <int>, <in>, <not>, ...) must
+        # neither be the top-level constant nor keywords of the concrete syntax.
+        self.used_variables = used_variables_in_concrete_syntax(ctx) | OrderedSet(
+            [
+                "start",
+                "forall",
+                "exists",
+                "int",
+                "in",
+                "not",
+                "and",
+                "or",
+                "xor",
+                "implies",
+                "iff",
+                "true",
+                "false",
+                "const",
+                "div",
+                "mod",
+                "abs",
+            ]
+        )
 
     def exitStart(self, ctx: IslaLanguageParser.StartContext):
         try:
